@@ -38,7 +38,12 @@ RejL(c, v) == [verdict |-> "reject", cls |-> c, strict |-> FALSE, val |-> v]   \
 (* NDP options (RFC 4861 4.6): type, length in units of 8 octets, present bytes. *)
 NdpTypes == IF Alpha = "wide" THEN {1, 2, 3, 5, 24, 25, 31, 200} ELSE {1, 25, 31, 200}
 NdpLens  == IF Alpha = "wide" THEN {0, 1, 2, 3, 4, 5, 32, 33, 255} ELSE {0, 1, 3}   \* 32, 33: 8*l wrapped in a uint8 before /repo c20b9e1
-NdpElems == {e \in [t : NdpTypes, l : NdpLens, p : {"full", "hdr1", "body"}] :
+\* c: content class of the value. Only the DNS search list (31) carries text: plain LDH labels, punycode labels
+\* (xn--) whose decoded form is longer / shorter than the wire form, and an xn-- label that is not valid punycode.
+NdpContents(t) == IF t = 31 /\ Alpha = "wide" /\ MaxLen <= 2 THEN {"plain", "puny.long", "puny.short", "puny.bad"} ELSE {"plain"}
+NdpElems == {e \in [t : NdpTypes, l : NdpLens, p : {"full", "hdr1", "body"}, c : {"plain", "puny.long", "puny.short", "puny.bad"}] :
+               /\ e.c \in NdpContents(e.t)
+               /\ (e.p # "full" \/ e.l < 3) => e.c = "plain"      \* the text needs room
                /\ e.p = "hdr1" => e.l = 0           \* only the type octet is present
                /\ e.p = "body" => e.l >= 1          \* header present, fewer than 8*l octets
                /\ e.p = "full" => e.l # 255}        \* 2040 octets never fit
@@ -144,7 +149,11 @@ DhcpStep(e, a) ==
     [] e.k = "end" -> [adv |-> 0, acc |-> Acc(a.val)]
     [] e.k \in {"lencut", "bodycut"} -> [adv |-> 0, acc |-> Rej(e.k, a.val)]
     [] OTHER -> [adv |-> 2 + e.n, acc |-> Go(Append(a.val, <<e.c, e.n>>))]
-DhcpAux == {[op |-> 1, port |-> 67], [op |-> 2, port |-> 68], [op |-> 2, port |-> 67]}
+\* wf: the connection refuses the next write (the reply to this packet) with a permanent / temporary error; the same
+\* packet is then delivered once more with a working connection: the handler must have survived its failed send.
+WriteFail == IF Alpha = "wide" /\ MaxLen <= 2 THEN {"none", "perm", "temp"} ELSE {"none"}
+DhcpAux == {[op |-> o.op, port |-> o.port, wf |-> w] :
+              o \in {[op |-> 1, port |-> 67], [op |-> 2, port |-> 68], [op |-> 2, port |-> 67]}, w \in WriteFail}
 
 -----------------------------------------------------------------------------
 (* NBNS node status response (RFC 1002 4.2.18): NUM_NAMES, then 18 octet entries. *)
@@ -368,8 +377,15 @@ LlcStep(e, a) == IF e.len < 3 THEN [adv |-> 0, acc |-> Rej("short", a.val)]
 McKeys == {<<m, i>> : m \in {1, 2}, i \in {1, 2}}
 \* "bad" is a malformed response (truncated record) of the same station and transaction id: it must be rejected
 \* and must leave no trace: the cache changes only when a response was processed successfully.
-McElems == {[k |-> x, m |-> key[1], i |-> key[2]] : x \in {"mdns", "bad"}, key \in IF Alpha = "wide" THEN McKeys ELSE {<<1, 1>>, <<2, 1>>}}
-      \cup {[k |-> x, m |-> 0, i |-> 0] : x \in {"age", "dns", "find"}}
+McElems == IF Alpha = "ids" THEN {[k |-> "mdns", m |-> 1, i |-> i] : i \in {1, 2}} \cup {[k |-> "bad", m |-> 1, i |-> 1]}
+           ELSE {[k |-> x, m |-> key[1], i |-> key[2]] : x \in {"mdns", "bad"}, key \in IF Alpha = "wide" THEN McKeys ELSE {<<1, 1>>, <<2, 1>>}}
+                \cup {[k |-> x, m |-> 0, i |-> 0] : x \in {"age", "dns", "find"}}
+\* aux: the two transaction ids the histories use. The reference only needs them to be different; the alphabet "ids"
+\* runs short histories over every ordered pair of ids around the boundaries of 7 / 8 / 11 / 16 bit and UTF-8 / UTF-16
+\* encodings (an id rendered as text must stay injective): 0x7f/0x80, 0xff/0x100, 0x7ff/0x800, 0xd7ff..0xe000, 0xfffe/0xffff.
+IdClasses == {0, 1, 127, 128, 255, 256, 2047, 2048, 55295, 55296, 56319, 56320, 57343, 57344, 65534, 65535}
+McAux == IF Alpha = "ids" THEN {x \in [id1 : IdClasses, id2 : IdClasses] : x.id1 # x.id2}
+         ELSE {[id1 |-> 0, id2 |-> 4097]}
 McAcc0 == [cache |-> [key \in McKeys |-> "none"], table |-> FALSE, out |-> <<>>]
 McStep(e, v) ==
   CASE e.k = "mdns" ->
@@ -412,6 +428,8 @@ AuxSet(s) == CASE Walker = "dhcp" -> DhcpAux [] Walker = "nbns" -> NbnsAux [] Wa
                [] Walker = "name" -> NameAux(s) [] Walker = "dnsmsg" -> MsgAux(s)
                [] Walker = "lldp" -> {[trail |-> t] : t \in {0, 1, 3}}
                [] Walker = "icmp4" -> IF s = <<>> THEN {} ELSE {[x |-> 0]}
+               [] Walker \in {"ndp", "arp"} -> {[x |-> 0, wf |-> w] : w \in WriteFail}
+               [] Walker = "mcache" -> McAux
                [] OTHER -> {[x |-> 0]}
 Acc0(s, a) == CASE Walker = "name" -> Go(NameAcc0(a)) [] Walker = "nbns" -> Go(0)
                 [] Walker = "mcache" -> Go(McAcc0) [] Walker = "ping" -> Go(PingAcc0) [] OTHER -> Go(<<>>)
